@@ -1212,6 +1212,74 @@ fn check_c14(case: &Case, cfg: &RunCfg, sem: &Sem, res: &RunResult, order: (usiz
                 }
             }
         }
+        // inclusion for the later soft solvables, in a form that does not depend on which earlier ones
+        // were accepted: x (not named twice) adds E = closure(x) \ S to the conflict-free hard solution S,
+        // and no package of E is reachable - through any candidate's requirements or constrains - from
+        // the root or from any *other* soft solvable, nor does any member of E constrain anything: then
+        // nothing decided before x's turn can stand in its way and x must be in the solution.
+        if let Some(s) = sem.conflict_free(&[]) {
+            let reach = |starts: &[Id], start_names: &[Id]| -> BTreeSet<Id> {
+                let mut names: BTreeSet<Id> = start_names.iter().copied().collect();
+                let mut todo: Vec<Id> = starts.to_vec();
+                for &n in start_names {
+                    todo.extend(u.solvs.iter().enumerate().filter(|(_, sv)| sv.name == n).map(|(i, _)| i as Id));
+                }
+                let mut seen: BTreeSet<Id> = BTreeSet::new();
+                while let Some(y) = todo.pop() {
+                    if !seen.insert(y) {
+                        continue;
+                    }
+                    let d = &u.solvs[y as usize].deps;
+                    for n in sem.mentioned_names(d.reqs(), d.cons()) {
+                        if names.insert(n) {
+                            todo.extend(u.solvs.iter().enumerate().filter(|(_, sv)| sv.name == n).map(|(i, _)| i as Id));
+                        }
+                    }
+                }
+                names
+            };
+            let root_names: Vec<Id> = sem.mentioned_names(&case.p.reqs, &case.p.cons).into_iter().collect();
+            let from_root = reach(&[], &root_names);
+            for (i, &x) in case.p.soft.iter().enumerate().skip(1) {
+                if case.p.soft.iter().filter(|&&y| y == x).count() != 1 {
+                    continue;
+                }
+                let Some(sx) = sem.conflict_free(&[x]) else { continue };
+                if !(s.is_subset(&sx) && !sem.is_excluded(x) && !sem.is_locked_out(x) && sem.is_listed(x)) {
+                    continue;
+                }
+                let e: Vec<Id> = sx.difference(&s).copied().collect();
+                let e_names: BTreeSet<Id> = e.iter().map(|&y| u.solvs[y as usize].name).collect();
+                if e.iter().any(|&y| !u.solvs[y as usize].deps.cons().is_empty() || matches!(u.solvs[y as usize].deps, Deps::Unknown(_))) {
+                    continue;
+                }
+                if e_names.iter().any(|n| from_root.contains(n) || u.names[*n as usize].locked.is_some() || !u.names[*n as usize].excluded.is_empty()) {
+                    continue;
+                }
+                let mut independent = true;
+                for (j, &y) in case.p.soft.iter().enumerate() {
+                    if j != i {
+                        let r = reach(&[y], &[u.solvs[y as usize].name]);
+                        if e_names.iter().any(|n| r.contains(n)) {
+                            independent = false;
+                            break;
+                        }
+                    }
+                }
+                if independent {
+                    acc.count("inclusion_premise_holds_later_soft");
+                    if !sol.contains(&x) {
+                        acc.violation(v(
+                            "soft-not-included:independent-later",
+                            format!(
+                                "soft {} (position {i}) touches no package that the root or any other soft requirement can reach and is compatible with the conflict-free hard solution, but was not included",
+                                u.solv_label(x)
+                            ),
+                        ));
+                    }
+                }
+            }
+        }
         // a soft solvable for which hard ∧ x has no model at all must be absent
         for &x in &case.p.soft {
             // (with the documented exemption for every directly named soft solvable: an earlier accepted
